@@ -442,10 +442,12 @@ func ufInt(name string, args ...any) int { return 0 }
 func callStr(fn string, s string) string { return "" }
 func renderedRange(expr string) string { return "" }
 func inlined() bool { return false }
+func within(fn string) bool { return false }
 func foldStr(n int, f func(i int) string) string { return "" }
 func foldInt(n int, f func(i int) int64) int64 { return 0 }
 func lastBytes(fn string) []byte { return nil }
 func lastStr(fn string) string { return "" }
+func lastOK(fn string) bool { return false }
 func lastTime(fn string) gvc_time.Time { return gvc_time.Time{} }
 func eachStr(pre string, list []string, suf string) string { return "" }
 func callStrs(fn string, s []string) []string { return nil }
@@ -669,7 +671,7 @@ var ghostNames = map[string]bool{
 	"gvcModLoc": true, "gvcModGhost": true, "gvcModFlag": true, "gvcModMap": true, "gvcModGlob": true, "gvcModElems": true,
 	"fsContent": true, "fsExists": true, "fsReadable": true, "fsIsDir": true, "fsMode": true, "fsSize": true, "fsMTime": true,
 	"fsLink": true, "fsIsLink": true, "ufStr": true, "ufInt": true, "ufBool": true,
-	"errIs": true, "errAsSigningFailure": true, "errMsg": true, "mapHas": true, "bit": true, "isNilFunc": true, "dynType": true, "mergoOverride": true, "deepEq": true, "forallKeys": true, "forallStr": true, "globErr": true, "readerContent": true, "callStr": true, "callStrs": true, "renderedRange": true, "inlined": true, "foldStr": true, "foldInt": true, "lastBytes": true, "lastStr": true, "lastTime": true, "eachStr": true,
+	"errIs": true, "errAsSigningFailure": true, "errMsg": true, "mapHas": true, "bit": true, "isNilFunc": true, "dynType": true, "mergoOverride": true, "deepEq": true, "forallKeys": true, "forallStr": true, "globErr": true, "readerContent": true, "callStr": true, "callStrs": true, "renderedRange": true, "inlined": true, "within": true, "foldStr": true, "foldInt": true, "lastBytes": true, "lastStr": true, "lastOK": true, "lastTime": true, "eachStr": true,
 }
 
 func ghostBuiltin(fn *ssa.Function) string {
@@ -764,6 +766,21 @@ func (e *Engine) ghostCall(c *CallCtx, g string, fn *ssa.Function) *Term {
 			return Forall([]*Term{j}, Implies(rng, body))
 		}
 		return Not(Forall([]*Term{j}, Not(And(rng, body))))
+	case "within":
+		// true when the clause is evaluated while the named function is being executed
+		name := e.constStr(c.args[0])
+		f := c.fr
+		for f != nil {
+			if f.clause && f.caller == nil {
+				f = f.owner
+				continue
+			}
+			if !f.clause && f.fn != nil && (shortFn(f.fn) == name || strings.HasSuffix(shortFn(f.fn), "."+name)) {
+				return True
+			}
+			f = f.caller
+		}
+		return False
 	case "inlined":
 		// true when the function this clause belongs to is being executed inside a caller
 		f := c.fr
@@ -973,16 +990,23 @@ func (e *Engine) ghostCall(c *CallCtx, g string, fn *ssa.Function) *Term {
 			e.axiom(Implies(Ge(as[0], IntT(0)), Eq(StrLen(r), as[0])))
 		}
 		return r
-	case "lastBytes", "lastStr", "lastTime":
+	case "lastBytes", "lastStr", "lastTime", "lastOK":
 		// call-history ghost: the result of the most recent call of the named function
 		name := e.constStr(c.args[0])
-		if !strings.Contains(name, "/") && c.fr != nil && c.fr.fn.Pkg != nil {
+		if !strings.Contains(name, "/") && !strings.Contains(name, ".") && c.fr != nil && c.fr.fn.Pkg != nil {
 			name = c.fr.fn.Pkg.Pkg.Path() + "." + name
 		}
 		r, ok := e.callHist["last:"+name]
 		if !ok {
 			e.note("no call of " + name + " was observed")
 			return Fresh("nocall", e.tr.sortOf(fn.Signature.Results().At(0).Type()))
+		}
+		if g == "lastOK" {
+			// the error result of that call was nil
+			if r.Op == "tuple" && len(r.Elems) >= 2 && r.Elems[len(r.Elems)-1].Sort == IfaceS {
+				return Eq(r.Elems[len(r.Elems)-1], NilIface)
+			}
+			return True
 		}
 		if r.Op == "tuple" {
 			r = r.Elems[0]
